@@ -1,6 +1,6 @@
 (* C12 — memory-limited decoding has an exact threshold U, the tracked usage. *)
 Require Import Scale.Bytes Scale.Eres Scale.Prog Scale.ProgFacts Scale.ProgMore Scale.Chunks Scale.Monitors Scale.CompactImpl
-  Scale.CompactSpec Scale.CompactProofs Scale.CompactTheorems Scale.Utf8 Scale.Codec Scale.CodecEnc Scale.CodecDec Scale.CodecRt Scale.CodecMore.
+  Scale.CompactSpec Scale.CompactProofs Scale.CompactTheorems Scale.Utf8 Scale.Codec Scale.CodecEnc Scale.CodecDec Scale.CodecRt Scale.CodecMore Scale.TraceEq Scale.Mem.
 
 (* for EVERY decoder program, input and limit L, with U the saturating sum of the sizes the
    decode announces: L > U is transparent; if anything was announced (in particular if
@@ -57,7 +57,38 @@ Example C12_nonvacuous :
   run (memmon 16) (dec t) true bs 0 = RErr 16.
 Proof. repeat split; vm_compute; reflexivity. Qed.
 
+(* value side: for every bit-free universe type and well-formed value, the sizes announced while
+   decoding its encoding sum to the closed form [ann]: count x element size per sequence, node size
+   per list element, the B-tree estimate per map/set, the boxed size per Box/Rc/Arc, the length per
+   string, summed over the nesting; zero for values with none of these *)
+Theorem C12_tracked_usage_closed_form : forall t v bs known rest,
+  nobits t = true -> wf_ty t = true -> wf t v = true -> enc_spec t v = EOk bs -> ann t v <= usize_max ->
+  used_after 0 (snd (runt (dec t) known (bs ++ rest))) = ann t v.
+Proof. exact tracked_usage_is_closed_form. Qed.
+
+(* hence the threshold of memory-limited decoding of an encoding is that closed form *)
+Theorem C12_limit_on_encodings : forall t v bs known rest L,
+  nobits t = true -> wf_ty t = true -> wf t v = true -> enc_spec t v = EOk bs -> ann t v <= usize_max ->
+  (ann t v < L -> exists u, run (memmon L) (dec t) known (bs ++ rest) 0 = ROk (canon t v) rest u) /\
+  (0 < ann t v -> L <= ann t v -> exists u, run (memmon L) (dec t) known (bs ++ rest) 0 = RErr u).
+Proof. exact mem_limit_on_encodings. Qed.
+
+(* and it covers the heap payload of the value: exactly for sequences, lists, boxes and strings,
+   within a factor of two for maps and sets (an entry being at most a leaf node over its 11 slots) *)
+Theorem C12_payload_covered : forall t, wf_ty t = true -> forall v, wf t v = true -> payload t v <= 2 * ann t v.
+Proof. exact (proj1 payload_within_twice_announced). Qed.
+
+Example C12_value_nonvacuous :
+  let t := TPair (TColl CVec 16 (TBox 8 (TPrim 8))) (TPair (TColl CMap 192 (TPair (TPrim 1) (TPair (TPrim 1) TUnit))) (TPair TStr TUnit)) in
+  let v := VPair (VSeq [VN 1; VN 2]) (VPair (VSeq [VPair (VN 1) (VPair (VN 7) VUnit)]) (VPair (VSeq [VN 104; VN 105]) VUnit)) in
+  nobits t = true /\ wf_ty t = true /\ wf t v = true /\
+  (exists bs, enc_spec t v = EOk bs) /\ ann t v = 2 * 16 + 2 * 8 + 192 + 2 /\ payload t v = 2 * 16 + 2 * 8 + 17 + 2.
+Proof. repeat split; try (vm_compute; reflexivity). eexists. vm_compute. reflexivity. Qed.
+
 Print Assumptions C12_threshold.
 Print Assumptions C12_used_mem_is_U.
 Print Assumptions C12_transparent.
 Print Assumptions C12_btree_estimate_half.
+Print Assumptions C12_tracked_usage_closed_form.
+Print Assumptions C12_limit_on_encodings.
+Print Assumptions C12_payload_covered.
